@@ -107,6 +107,9 @@ def prop_graph(rec):
             labs.add('has-driver-test')
         if any(s.get('hdrs') for s in model['steps']):
             labs.add('generated-header-include')
+        for s in model['steps']:
+            if s.get('mode', 'copy') != 'copy':
+                labs.add('copy-' + s['mode'])
         if any(s.get('pchname') for s in model['steps']):
             labs.add('pch-by-name')
         if any(m['always'] and not m['phony'] for m in g):
@@ -186,7 +189,10 @@ def prop_graph(rec):
                     if f not in files and not f.startswith('P:'):
                         files.append(f)
             files.sort()
+            prod = graph.producers(g)
             for f in files[:case.get('max_touch', 10)]:
+                if prod.get(f, {}).get('transparent'):
+                    continue       # touching a link touches its target
                 path = os.path.join(src if f.startswith(graph.S) else bld,
                                     f[2:])
                 if not os.path.exists(path):
